@@ -46,6 +46,10 @@ def program_st(draw, seed_pool, like=None):
             cfg["lp"] = ["UCB1", {"alpha": 1}]
         if cfg["np"][1].get("no_nhood_prob_of_arm") and len(cfg["np"][1]["no_nhood_prob_of_arm"]) != len(cfg["arms"]):
             cfg["np"][1].pop("no_nhood_prob_of_arm")
+    if cfg["lp"][0] == "LinTS" and draw(st.integers(0, 2)) == 0:
+        # an almost absent penalty: with the duplicated feature column below the covariance has no Cholesky factor and
+        # the documented sampler fails - identically for equal seeds, whatever else happens in the process
+        cfg["lp"][1]["l2_lambda"] = draw(st.sampled_from([1e-12, 1e-9]))
     h = gen.History(draw, cfg, max_rows=8, grid=draw(st.sampled_from(["small", "int"])))
     h.fit() if draw(st.integers(0, 3)) else h.partial_fit()
     for _ in range(draw(st.integers(1, 6))):
@@ -116,6 +120,9 @@ def evaluate(case, ctx):
     solo = [run_solo(p) for p in case["programs"]]
     for j, p in enumerate(case["programs"]):
         for i, o in enumerate(solo[j]):
+            if ops.is_exc(o) and o[1] == "LinAlgError" and p["config"]["lp"][0] == "LinTS" \
+                    and p["config"]["lp"][1].get("l2_lambda", 1) < 1e-6:
+                continue        # the expected numerical failure (compared like any other output below)
             if ops.is_exc(o):
                 raise Violation("unexpected_exception", "program %d op %d %s raised %s" % (j, i, p["ops"][i][0], ops.short(o)),
                                 bucket="unexpected_exception:%s:%s" % (p["ops"][i][0], o[1]))
